@@ -6,18 +6,21 @@ from fe_common import *
 META = dict(
     property_id='C01',
     design_ref='DESIGN.md section 4, C01',
-    technique='Coq proof (chunk-level HTTP reader refines a byte-level machine: segmentation independence by induction; SCGI/FastCGI decode-encode; cache read_exact = stream slices) + extracted-model correspondence over a real in-process service',
-    level_text=('Theorems in coq/C01/Props.v about the executable model of the HTTP header reader (device getc/ungetc + parser state machine + '
-                'header glue), SCGI netstring decoder, FastCGI record/params/stdin decoder and the read-ahead cache: the result of reading a '
-                'request is independent of how the byte stream is cut into read chunks (all chunkings, unbounded), leaves exactly the unread '
-                'suffix for the next kept-alive request, SCGI and FastCGI decoders invert the encoders for every record layout/padding. '
-                'The model is tied to the code by running the extracted model and a real cppcms::service (HTTP over loopback TCP, SCGI and '
-                'FastCGI over unix sockets, sync and async applications) on the same segmented byte streams and comparing everything the '
-                'application observes; an independent oracle compares the observation with what the generator encoded.'),
-    level_note=('Trusted: Coq kernel; hand transcription of the parsers (tied by correspondence only, leaf predicates by cxx2v where listed); '
-                'ExtrOcamlBasic extraction; harness/fe_service.cpp + accept() interposition to make segment boundaries real read boundaries; '
-                'kernel socket behaviour; cookies and multipart are checked by the oracle only (not in the Coq model); duplicate header names '
-                'are outside the well-formed domain.'),
+    technique='Coq proof (chunk-level HTTP / SCGI / FastCGI readers refine byte- and stream-level machines: segmentation independence by induction; decode-encode round trips for every FastCGI record layout; keep-alive hand-over; agreement of the three front-ends; string_pool in-bounds invariant) + extracted-model correspondence over a real in-process service + implementation-only oracle',
+    level_text=('40 theorems in coq/C01/Props.v about the executable model of the HTTP header reader (device getc/ungetc + parser state machine + '
+                'header glue + process_request), the SCGI netstring reader, the FastCGI record/params/stdin reader over the read-ahead cache, whole '
+                'kept-alive connections and the string_pool arena: for every segmentation of the byte stream into reads (unbounded), every FastCGI '
+                'record layout and padding, and k requests on one connection the application observes exactly the encoded requests; the chunk-level '
+                'models equal byte/stream-level specifications; HTTP, SCGI and FastCGI deliver the same environment, view and body; every string_pool '
+                'allocation stays inside its page. The extracted chunk-level models (http_conn, scgi_decode_c, fcgi_conn_c, pool_run) and a real '
+                'cppcms::service (HTTP over loopback TCP, SCGI and FastCGI over unix sockets, sync and async applications) run on the same segmented '
+                'byte streams and everything the application observes is compared; an independent oracle compares the observation (incl. cookies) '
+                'with what the generator encoded.'),
+    level_note=('Trusted: Coq kernel; hand transcription of the parsers (tied by correspondence; leaf predicates separator/tocken condition/xdigit/'
+                'ascii_to_lower by cxx2v + Link.v); ExtrOcamlBasic extraction; harness/fe_service.cpp + accept() interposition to make segment '
+                'boundaries real read boundaries; kernel socket behaviour; cookies and multipart are checked by the oracle only (not in the Coq '
+                'model); duplicate header names and header blocks above 16384 bytes (where the real reader does depend on the segmentation) are '
+                'outside the well-formed domain; the SCGI decimal length is a parameter of the SCGI round-trip theorem.'),
 )
 
 GEN = {
@@ -32,12 +35,13 @@ def want_env(k):
     return not any(k.startswith(p) for p in SKIP_ENV)
 
 
-def canon_item(M, S, P, Q, CT, CL, E, G, O, B):
+def canon_item(M, S, P, Q, CT, CL, E, G, O, B, K):
     env = sorted((k, v) for k, v in E.items() if want_env(k))
-    return 'M=%s;S=%s;P=%s;Q=%s;CT=%s;CL=%s;E=%s;G=%s;O=%s;B=%s' % (
+    return 'M=%s;S=%s;P=%s;Q=%s;CT=%s;CL=%s;E=%s;G=%s;O=%s;B=%s;K=%s' % (
         hx(M), hx(S), hx(P), hx(Q), hx(CT), CL, ','.join(hx(k) + ':' + hx(v) for k, v in env) or '-',
         ','.join(sorted(hx(k) + ':' + hx(v) for k, v in G)) or '-',
-        ','.join(sorted(hx(k) + ':' + hx(v) for k, v in O)) or '-', hx(B))
+        ','.join(sorted(hx(k) + ':' + hx(v) for k, v in O)) or '-', hx(B),
+        ','.join(hx(k) + ':' + hx(v) for k, v in sorted(K.items())) or '-')
 
 
 def echo_bodies(proto, tok):
@@ -94,7 +98,7 @@ def impl_items(case, out):
             continue
         d = parse_echo(body)
         items.append(('OK ' + canon_item(d.get('M', b''), d.get('S', b''), d.get('P', b''), d.get('Q', b''), d.get('CT', b''),
-                                         d.get('CL', '?'), d['E'], d['G'], d['O'], d.get('B', b'')), d['C']))
+                                         d.get('CL', '?'), d['E'], d['G'], d['O'], d.get('B', b''), d['C']), d['C']))
     return items
 
 
@@ -126,8 +130,11 @@ def canon_model_line(out):
         E = {}
         for k, v in pl(f['E']):
             E.setdefault(k, v)
+        K = {}
+        for k, v in pl(f['K']):
+            K.setdefault(k, v)
         items.append('OK ' + canon_item(unhx(f['M']), unhx(f['S']), unhx(f['P']), unhx(f['Q']), unhx(f['CT']), f['CL'], E,
-                                        pl(f['G']), pl(f['O']), unhx(f['B'])))
+                                        pl(f['G']), pl(f['O']), unhx(f['B']), K))
     return ' | '.join(items)
 
 
@@ -242,9 +249,9 @@ def expect_of(r):
     cl = str(len(r.body)) if (r.body or r.method == b'POST') else '0'
     # cookies (oracle only, not in the Coq model): a quoted value is delivered without its quotes
     has_cookie = any(n == b'Cookie' for n, _ in r.headers)      # generators may have dropped the header again
-    ck = sorted((k, v[1:-1] if v.startswith(b'"') else v) for k, v in (getattr(r, 'cookies', {}) if has_cookie else {}).items())
+    ck = dict((k, v[1:-1] if v.startswith(b'"') else v) for k, v in (getattr(r, 'cookies', {}) if has_cookie else {}).items())
     return canon_item(r.method, r.script, urldecode(r.path), qs, r.content_type or b'', cl,
-                      {k: v for k, v in env.items()}, pairs(qs), post, r.body) + ';K=' + (','.join(hx(k) + ':' + hx(v) for k, v in ck) or '-')
+                      {k: v for k, v in env.items()}, pairs(qs), post, r.body, ck)
 
 
 def segment(rng, data, mode):
@@ -339,6 +346,7 @@ def gen_cases(ctx):
             cases.append(case_line(proto, [[d] for d, _ in encs], exp, [rd for _, rd in encs]))
     cases += gen_boundary(ctx)
     cases += gen_malformed(ctx)
+    cases += gen_cookies(ctx)
     return cases
 
 
@@ -440,6 +448,30 @@ def gen_boundary(ctx):
     return cases
 
 
+def gen_cookies(ctx):
+    """Cookie headers of every shape (attributes with $, missing =, quoted strings with escapes, stray separators) handed over
+    verbatim by SCGI / FastCGI: model = implementation on request::parse_cookies (no expectation)"""
+    rng = ctx.rng
+    pieces = [b'a', b'b1', b'k', b'=', b'=', b';', b'; ', b',', b' ', b'\t', b'"', b'"q"', b'"a b;,"', b'"x\\"y"', b'\\', b'$Path', b'$path=/p', b'$PATH="/q"',
+              b'$Domain=d', b'$Version=1', b'v', b'val-1.2', b'a=b', b'k=', b'=v', b'a b', b'(c)', b'@', b'/', b'k=v', b'\r\n x', b'\x80', b'k=v;k=w']
+    cases = []
+    for _ in range(ctx.scale(150, 1500)):
+        ck = b''.join(rng.choice(pieces) for _ in range(rng.randint(1, 9)))
+        r = Req(b'GET', rng.choice([b'/sync', b'/async']), b'/c', None, [], b'', True, None, False)
+        env = cgi_env(r, '')
+        env[b'HTTP_COOKIE'] = ck
+        proto = rng.choice(['scgi', 'fcgi'])
+        if proto == 'scgi':
+            blob = b''.join(k + b'\0' + v + b'\0' for k, v in [(b'CONTENT_LENGTH', b'0'), (b'SCGI', b'1')] + sorted(env.items()))
+            data = str(len(blob)).encode() + b':' + blob + b','
+            cases.append('scgi S:' + hx(data) + ' E')
+        else:
+            env[b'CONTENT_LENGTH'] = b'0'
+            data = fcgi_rec(1, 1, struct.pack('>HB5x', 1, 0)) + fcgi_rec(4, 1, fcgi_pairs(sorted(env.items()))) + fcgi_rec(4, 1, b'') + fcgi_rec(5, 1, b'')
+            cases.append('fcgi S:' + hx(data) + ' R')
+    return cases
+
+
 def gen_malformed(ctx):
     """a small malformed stream aimed at the error branches of the three readers (no expectation: model = implementation only);
     robustness against arbitrary malformed input is property C02"""
@@ -535,15 +567,12 @@ def oracle(case, out):
             if g != e[1:]:
                 return ('request-not-faithful-' + proto, 'request %d: expected %s, the client observed %s' % (i + 1, e[1:], g[:60]))
             continue
-        e, _, ek = e.partition(';K=')
-        if g == 'OK ' + e and ek:
-            gk = ','.join(hx(k) + ':' + hx(v) for k, v in sorted(items[i][1].items())) or '-'
-            if gk != ek:
-                return ('cookies-not-faithful-' + proto, 'request %d: cookies observed %s, sent %s' % (i + 1, gk, ek))
         if g != 'OK ' + e:
             gf = dict(p.split('=', 1) for p in g[3:].split(';')) if g.startswith('OK ') else {}
             ef = dict(p.split('=', 1) for p in e.split(';'))
             bad = [k for k in ef if gf.get(k) != ef[k]] if gf else ['no echo: ' + g[:40]]
+            if bad == ['K']:
+                return ('cookies-not-faithful-' + proto, 'request %d: cookies observed %s, sent %s' % (i + 1, gf.get('K'), ef['K']))
             return ('request-not-faithful-' + proto, 'request %d of the connection was not delivered as encoded; differing fields: %s' % (i + 1, bad))
     # handler ran exactly once per request
     m = re.search(r'calls=(\d+),(\d+),(\d+)', out)
@@ -575,7 +604,10 @@ def run(ctx):
         'harness/fe_service.cpp (in-process cppcms::service, accept() interposition, echo applications), checks/fe_common.py encoders',
         'hand model coq/C01/Defs.v, Chunked.v, Conn.v, Pool.v of http_parser.h / http_api.cpp / scgi_api.cpp / fastcgi_api.cpp reading paths and string_map.h string_pool',
         'harness/C01_pool.cpp (string_pool internals read through #define private public; AddressSanitizer)']
-    ctx.assumptions = ['kernel delivers socket bytes in order', 'header names are unique within a request (well-formed domain)',
+    ctx.assumptions = ['kernel delivers socket bytes in order', 'header names are unique within a request (well-formed domain; premise NoDup of frontends_agree)',
+                       'theorem premises: within_cap / no IOverCap (header block of at most 16385 bytes), layout_ok (records of 1..65535 bytes, padding < 256), '
+                       'env_ok (no NUL, lengths < 2^31), PARAMS below 16384 bytes, Content-Length = body length, token method and header names, header values '
+                       'without CR / double quote / opening parenthesis in frontends_agree (folded and quoted lines are covered by http_head_lines + http_header_glue_general)',
                        'the server thread reads a segment before the next one is sent (observed through FIONREAD on the accepted fd); '
                        'if it does not, segments coalesce, which by the segmentation theorem cannot change the result']
     exe, err = vlib.build_harness('fe_service', ['fe_service.cpp'], extra=['-ldl'])
